@@ -146,6 +146,15 @@ class _Scenario:
         return False
 
 
+try:
+    from pytools.tag import Tag as _Tag
+
+    class _AxisTagForCsr(_Tag):
+        pass
+except Exception:   # noqa: BLE001
+    _AxisTagForCsr = None
+
+
 def scenarios(seed):
     """sharing patterns the seeded program stream produces rarely or never: one operand used several times by
     one node (every multi-operand kind), wrapped data that are overlapping views of one buffer"""
@@ -245,6 +254,35 @@ def scenarios(seed):
         outs["sa"] = pt.sum(da * 2)
         outs["sb"] = pt.sum(db * 3) if b.dtype.kind == "f" else pt.sum(db % 7)
         out.append(_Scenario(f"data-wrapper-views:{k}", outs, vin))
+    # a sparse (CSR) product whose three matrix operand arrays each get REPLACED by some transformation: wrapped data
+    # sharing a buffer with another wrapper (deduplicate_data_wrappers), expressions with a dead zeros_like / a
+    # duplicated sub-expression (eliminate_dead_code, deduplicate), operands reached by an axis tag (unify_axes_tags)
+    ev = np.array([-1.5, 2.0, 0.5, 3.0, -2.0])
+    ec = np.array([0, 2, 1, 0, 2], dtype=np.int64)
+    rs = np.array([0, 2, 3, 5], dtype=np.int64)
+    xs = pt.make_placeholder("xs", (3,), np.float64)
+    xin = {"xs": np.array([1.0, -2.0, 0.5]), "evp": ev, "ecp": ec, "rsp": rs}
+
+    def csr_cases():
+        evw, ecw, rsw = pt.make_data_wrapper(ev), pt.make_data_wrapper(ec), pt.make_data_wrapper(rs)
+        evp = pt.make_placeholder("evp", (5,), np.float64)
+        ecp = pt.make_placeholder("ecp", (5,), np.int64)
+        rsp = pt.make_placeholder("rsp", (4,), np.int64)
+        yield "wrappers-sharing-buffers", (evw, ecw, rsw), {"also_ev": pt.make_data_wrapper(ev) * 2,
+                                                            "also_ec": pt.make_data_wrapper(ec) + 1,
+                                                            "also_rs": pt.make_data_wrapper(rs) - 1}
+        yield "operands-with-dead-zeros", (evp + pt.zeros_like(evp), ecp + pt.zeros_like(ecp), rsp + pt.zeros_like(rsp)), {}
+        yield "operands-with-duplicated-subexpressions", ((evp * 2) / 2 + (evp * 2) * 0, (ecp + 1) - 1, (rsp + 2) - 2), \
+            {"dup": (evp * 2) + 1}
+        tagged = evp.with_tagged_axis(0, _AxisTagForCsr())
+        yield "operands-reached-by-an-axis-tag", (tagged * 1.0, ecp + 0, rsp + 0), {"t": tagged + 1}
+    for lbl, (o_ev, o_ec, o_rs), extra in csr_cases():
+        try:
+            mat = pt.make_csr_matrix((3, 3), o_ev, o_ec, o_rs)
+            y = mat @ xs
+        except Exception:   # noqa: BLE001
+            continue
+        out.append(_Scenario(f"csr-matrix-operands-replaced:{lbl}", dict({"y": y, "y2": 2 * y}, **extra), xin))
     return out
 
 
